@@ -1,7 +1,7 @@
 (* Props_C12.v — C12: attenuated-signal flags compare the trailing window's spread with thresholds.
    Only statements, `exact <lemma>` and Print Assumptions.
    (statements written out by tools/mk_props.py from the lemmas they restate) *)
-From IoosQc Require Import Base Generated Attenuated AttenuatedProofs Skel SkelProofs.
+From IoosQc Require Import Base Generated Attenuated AttenuatedProofs Skel SkelBase SkelP_atten.
 From Coq Require Import String.
 
 (* for all series, missing patterns, both check types, with and without test_period, all min_obs / min_period settings and all thresholds (fail above suspect included): model = specification on the stated domain (windowed mode: increasing time axis of the same length, positive period, non-negative minimum; for 'range' no missing value inside the window of a present point — outside that clause the code reports UNKNOWN, known finding F19) *)
